@@ -218,7 +218,7 @@ class Reader(object):
                     inputs.append([off, 'VERTEX' if vsem == 'POSITION' else vsem, '#' + vsrc, st, vsrc])
             else:
                 inputs.append([off, sem, src, st, src[1:]])
-        inputs.sort(key=lambda t: (t[0], t[1], str(t[3]), t[2]))
+        inputs.sort(key=lambda t: (t[0], str(t[1]), str(t[3]), str(t[2])))
 
         def ints(el):
             return [int(t) for t in (el.text or '').split()]
